@@ -260,7 +260,10 @@ fn do_line(out: &mut Out, line: &str) {
 		}
 		"isobj" => {
 			let o = if params.is_object() { "1" } else { "0" };
-			out.line(line.into(), o.into(), Ok(()), false);
+			// independent reading: params are "by name" exactly when the (trimmed) text starts a JSON object
+			let expect = text.as_deref().map(|t| t.trim_start().starts_with('{')).unwrap_or(false);
+			let orc = if params.is_object() == expect { Ok(()) } else { Err(format!("is_object() = {} for params {:?}", params.is_object(), text)) };
+			out.line(line.into(), o.into(), orc, false);
 		}
 		_ => panic!("verb {line}"),
 	}
@@ -350,6 +353,7 @@ fn gen_lines(rng: &mut Rng, n: u64, lines: &mut Vec<String>) {
 	for script in [vec!["n:any"], vec!["o:any"], vec!["o:u64", "n:u64"]] {
 		lines.push(format!("seq none {}", script.join(" ")));
 	}
+	lines.push("isobj none".into());
 	for ty in TYPES {
 		lines.push(format!("parse none {ty}"));
 		lines.push(format!("optparse none {ty}"));
